@@ -47,7 +47,11 @@ func genWriter(r *rand.Rand, n int, tier string, out *bufio.Writer) {
 		max := pick(r, []int64{0, unit / 2, unit, unit + 20, 2 * unit, 2*unit + 50, 3 * unit, 1 << 30})
 		ratio := pick(r, []string{"0.5", "0.25", "1", "0.75", "2"})
 		var sb strings.Builder
-		fmt.Fprintf(&sb, "writer %d %d %s %d %d %d", max, r.Intn(2), ratio, r.Intn(2), r.Intn(2), nrec)
+		dup := 0
+		if r.Intn(10) == 0 {
+			dup = 1 // a name generator that repeats its name, files written under their final name
+		}
+		fmt.Fprintf(&sb, "writer %d %d %s %d %d %d %d", max, r.Intn(2), ratio, r.Intn(2), r.Intn(2), dup, nrec)
 		for _, s := range sizes {
 			fmt.Fprintf(&sb, " %s", hx(genData(r, s)))
 		}
@@ -86,6 +90,7 @@ func runWriter(toks []string) (string, string) {
 	max := t.nextInt64()
 	compress, ratioS, info, flush := t.nextInt() == 1, t.next(), t.nextInt() == 1, t.nextInt() == 1
 	ratio, _ := strconv.ParseFloat(ratioS, 64)
+	dup := t.nextInt() == 1
 	nrec := t.nextInt()
 	dir, err := os.MkdirTemp("", "verif-writer-")
 	if err != nil {
@@ -133,6 +138,10 @@ func runWriter(toks []string) (string, string) {
 			infoCount++
 			return infoID(infoCount), nil
 		})),
+	}
+	if dup {
+		opts = append(opts, gowarc.WithFileNameGenerator(&gowarc.PatternNameGenerator{Directory: out, Prefix: "v", Pattern: "%{prefix}s-0001.%{ext}s", Extension: "warc"}),
+			gowarc.WithOpenFileSuffix(""))
 	}
 	if info {
 		opts = append(opts, gowarc.WithWarcInfoFunc(func(rb gowarc.WarcRecordBuilder) error {
@@ -350,7 +359,7 @@ func runWriter(toks []string) (string, string) {
 			return observation, fmt.Sprintf("FAIL:callback-args:callback for %s got warcinfo id %q, want %q", b, c.info, wantInfo)
 		}
 	}
-	if len(callbacks) != len(names) {
+	if len(callbacks) != len(names) && !dup {
 		return observation, fmt.Sprintf("FAIL:callback-args:%d callbacks for %d files", len(callbacks), len(names))
 	}
 	return observation, "OK"
